@@ -364,6 +364,7 @@ pub fn execute(ctx: &mut Ctx, s: &Scenario) -> Outcome {
                         ctx.counters.add("fault.crash_points", 1);
                     }
                     out.mixin(tag(&format!("{:?}{}", img.class, img.bytes.as_ref().map_or(0, |b| b.len()))));
+                    ctx.ev(|| format!("disk: W{} crash after {k}/{total} syscalls [{}] -> {:?} image, {} bytes", d.writer, img.trace.last().cloned().unwrap_or_default(), img.class, img.bytes.as_ref().map_or(0, |b| b.len())));
                     let what = || format!("writer W{} chunk {} block {} fsync {} crash after {}/{} syscalls -> {:?} image of {} bytes (intended {}, previous {:?})", d.writer, d.chunk, d.block, d.fsync, k, total, img.class, img.bytes.as_ref().map_or(0, |b| b.len()), bytes.len(), old_bytes.as_ref().map(|o| o.len()));
                     let Some(ib) = &img.bytes else {
                         // no file: the reader must report an error
